@@ -230,6 +230,17 @@ CHECKS = {
         'quick': {'shards': 12, 'timeout': 900},
         'thorough': {'shards': 16, 'timeout': 5400},
     },
+    'C16': {
+        'pkg': 'internal/server', 'test': 'TestVerif_C16', 'level': 'exploration',
+        'technique': 'runtime conservation monitor: per-user record-payload volume measured on wire taps (independent TLS record splitter) compared with the credit read back from the real bbolt user database after the real periodic usage uploads, on a virtual clock; cut-off of exhausted/expired/deleted users observed at the client side and in the panel',
+        'level_text': 'Whole system in a bubble: 1..4 database users plus a bypass user, 1..3 sessions each over 1..3 direct connections, echo traffic bursts of up to 150 kB interleaved with the real one-minute upload rounds, session closures (including the last one), credit changes, expiry moved into the past and deletions. '
+                      'At quiescent points after two upload intervals: nobody is charged more than the volume its own connections carried (never twice, never for another user), users that stayed active are charged exactly that volume in each direction, and users at or below zero credit, expired or deleted have lost every session within one round plus 10 virtual minutes.',
+        'level_note': 'Assumes ' + A_RACE + ' and ' + A_HARNESS + '. Direct transport only (the metered unit is exactly the TLS record payload there). Credit changes are applied only after pending usage has been uploaded, so the expected value is the last written value minus the volume since.',
+        'rule': 'case = one history (users, sessions, traffic bursts, closures, admin changes, upload rounds); distinct = history index; non-trivial = at least one traffic burst was followed by an upload round and a credit comparison',
+        'assumptions': [A_RACE, A_HARNESS],
+        'quick': {'shards': 16, 'timeout': 900},
+        'thorough': {'shards': 16, 'timeout': 5400},
+    },
 }
 
 NOT_APPLICABLE = {p: 'check not built yet in this round (the design in DESIGN.md section 3 applies; runtime monitoring can decide it)'
